@@ -104,6 +104,24 @@ def dense_src(rng):
     return {"kind": "cfg_rules", "rules": [list(r) for r in rules]}
 
 
+NULLABLE_ORDER = [   # nullable variables found THROUGH other nullable variables, next to non-nullable partners: which
+    # variables a worklist / fix-point of the nullable set meets first depends on the ORDER of the rules
+    [("S", "Xc"), ("X", "Yb"), ("Y", ""), ("Y", "C"), ("C", "")],
+    [("S", "Yb"), ("S", "YbYb"), ("Y", ""), ("Y", "CD"), ("C", ""), ("D", "")],
+    [("S", "AYB"), ("A", "a"), ("A", "Y"), ("Y", "CC"), ("Y", ""), ("C", ""), ("B", "b")],
+    [("S", "XY"), ("X", "aY"), ("Y", "CD"), ("Y", "y"), ("C", ""), ("C", "D"), ("D", "")],
+]
+
+
+def nullable_order_srcs(rng, per):
+    """the grammars of NULLABLE_ORDER with the rules after the first in `per` random orders each"""
+    for rules in NULLABLE_ORDER:
+        for _ in range(per):
+            rest = rules[1:]
+            rng.shuffle(rest)
+            yield {"kind": "cfg_rules", "rules": [list(rules[0])] + [list(r) for r in rest]}
+
+
 def tall_src(rng):
     """HEIGHT versus YIELD: a variable with a flat alternative of long yield (U -> PP, P -> XX, X -> a^m: derivation
     height 3, yield 4m) and a deep alternative of short yield (U -> aT, T -> aV, ..., -> aa: height d + 1, yield d + 2).
